@@ -574,11 +574,17 @@ example : ((run (init 1 600) [.accept 1 0, .left 1 0, .accept 1 0, .accept 2 0, 
 /-! ## the decision structure of the source, as regenerated on this run (xlate, `Gen/Shapes.lean`) -/
 
 open TV.Gen.Shapes in
+set_option maxRecDepth 16384 in
 /-- admission: the start loop's guards, the slot *identity* test of a returning transfer, and the leave handler -/
 theorem C12_source_shapes :
     admission_start = ["len(s.active) >= s.maxRecv || len(s.queue) == 0", "state == nil", "state.Status == ReceiverStatusTransferring"] ∧
     admission_slot_identity = ["s.active[peerID] == slot"] ∧
     admission_left = ["state != nil && state.Status != ReceiverStatusDone", "slot != nil", "slot != nil ; slot.closeFn != nil",
-      "slot != nil ; slot.cancel != nil", "queued != peerID"] := by decide
+      "slot != nil ; slot.cancel != nil", "queued != peerID"] ∧
+    -- the idle clean-up tick decides and deletes inside one critical section (the model's `tick` is one step)
+    admission_cleanup = ["now := s.now()", "changed := false", "s.mu.Lock()",
+      "for peerID, state := range s.receivers { if state.Status == ReceiverStatusTransferring { continue } if now.Sub(state.LastSeen) > s.receiverTTL { delete(s.receivers, peerID) changed = true } }",
+      "if changed { filtered := make([]string, 0, len(s.queue)) for _, peerID := range s.queue { if _, ok := s.receivers[peerID]; ok { filtered = append(filtered, peerID) } } s.queue = filtered }",
+      "s.mu.Unlock()", "if changed { s.emitChange() }"] := by decide
 
 end TV.C12
